@@ -221,7 +221,15 @@ pub fn into_tokens(c: char, it: &mut Peekable<Chars>, state: &mut State) -> LexR
                     .map(|(offset, string)| match tokenize_direct(string) {
                         Ok(tokens) => Ok(tokens
                             .iter()
-                            .map(|lex| Lex::new(lex.pos.offset(offset).start, lex.token.clone()))
+                            .map(|lex| {
+                                // only the first line of the expression starts at the offset
+                                let start = if lex.pos.start.line == 1 {
+                                    lex.pos.start.offset(offset)
+                                } else {
+                                    lex.pos.start.offset(&CaretPos::new(offset.line, 1))
+                                };
+                                Lex::new(start, lex.token.clone())
+                            })
                             .collect()),
                         Err(err) => Err(err),
                     })
